@@ -9,7 +9,11 @@ CFG = dict(
          "dims, sizes at the 8192-byte and uint16 limits) -> Bytes() -> ReadPacket. On every decoded packet all accessors are called under recover "
          "(Length, Frames, ChannelInfo, Timestamp, IsExternalTrigger, SequenceNumber, ReadValue at in/out-of-range indices, MakePretendPacket with a "
          "given and with the ChannelInfo channel count, ClearData) and compared with the model; the oracle judges the implementation's output. "
-         "24 fixed regression inputs (the repaired defects) run first. Non-trivial = a decoded packet whose accessors were all checked (acc), a "
+         "1 case number in 12 is a history: ONE reused Packet (as cmd/bahama uses it) and MakePretendPacket copies of it produce 2..6 encodings "
+         "(next payload of equal/smaller/larger size, new timestamp, reset, clear, or unchanged); every slice returned by Bytes() is kept "
+         "WITHOUT copying and decoded only after the last step: it must still decode to the packet it was made from (C15:encoding-not-stable) "
+         "and equal the model's (pure) encoding. "
+         "25 fixed regression inputs (the repaired defects, one send-queue history) run first. Non-trivial = a decoded packet whose accessors were all checked (acc), a "
          "completed round trip (rt) or a datagram with valid fixed header rejected by a validation (rej); distinct by input line.",
     nontrivial=["acc", "rt", "rej"],
     jobs=seeds(1, 8),
@@ -33,7 +37,9 @@ MANIFEST = dict(
          "NewPacket/SetTimestamp/ResetTimestamp/ClearData/successful NewData (16/32/64-bit, any dims, offsets, sequence numbers, counters, any "
          "16-bit unit words) whose shape the wire format can carry, Bytes() succeeds and decoding it consumes it entirely and reproduces version, "
          "source id, sequence number, channel offset, shape (non-positive sizes are wire padding and are dropped; exact when all sizes are positive), "
-         "payload samples and timestamp counter -- C15_roundtrip/_fields/_shape_exact. The same decidable oracles (accOK, rtOK) judge the real "
+         "payload samples and timestamp counter -- C15_roundtrip/_fields/_shape_exact; constructible includes MakePretendPacket copies, and every "
+         "packet encoded in any history of steps on one reused packet is constructible, so each encoding decodes back to ITS packet whatever is "
+         "encoded later (C15_history_built/_roundtrip; at run time every held, uncopied Bytes() result is decoded after the last step). The same decidable oracles (accOK, rtOK) judge the real "
          "code's output on every run; the model is compared field by field with the real ReadPacket/accessors/Bytes on generated datagrams.",
     note="Trusted: Lean 4.33 kernel (axioms propext, Classical.choice, Quot.sound only; audited every run); the hand-written model is tied "
          "to the Go code only by differential testing with seeded generators (not a proof): 'ReadPacket itself never panics' rests on the model "
@@ -52,4 +58,6 @@ THEOREMS = [
     ("DastardV.Props.C15", "DastardV.C15.C15_roundtrip"),
     ("DastardV.Props.C15", "DastardV.C15.C15_roundtrip_fields"),
     ("DastardV.Props.C15", "DastardV.C15.C15_roundtrip_shape_exact"),
+    ("DastardV.Props.C15", "DastardV.C15.C15_history_built"),
+    ("DastardV.Props.C15", "DastardV.C15.C15_history_roundtrip"),
 ]
